@@ -411,14 +411,85 @@ func ruleSIB3(w *World, r *Report) {
 		name := shortName(fi.Obj)
 		keys := map[string]bool{}
 		pinForms := map[string]bool{}
+		// the function itself and the unexported helpers of the package it hands the metadata map to
+		// (`if memoryIsPinned(meta) {`): what a helper reads of the map, the function reads
+		bodies := []*ast.BlockStmt{fi.Decl.Body}
 		ast.Inspect(fi.Decl.Body, func(m ast.Node) bool {
-			if ix, ok := m.(*ast.IndexExpr); ok {
-				if tv := info.Types[ix.Index]; tv.Value != nil && tv.Value.Kind() == constant.String {
-					keys[constant.StringVal(tv.Value)] = true
+			c, ok := m.(*ast.CallExpr)
+			if !ok {
+				return true
+			}
+			g := typeutil.StaticCallee(info, c)
+			if g == nil || g == dm || g.Exported() || relPkg(g) != "pkg/engine" {
+				return true
+			}
+			takesMap := false
+			for _, a := range c.Args {
+				if mt, ok := info.TypeOf(a).Underlying().(*types.Map); ok {
+					if _, isIface := mt.Elem().Underlying().(*types.Interface); isIface {
+						takesMap = true
+					}
 				}
+			}
+			if gd := w.Decl(g); takesMap && gd != nil && gd.Decl.Body != nil && gd.Pkg == fi.Pkg {
+				bodies = append(bodies, gd.Decl.Body)
 			}
 			return true
 		})
+		for _, body := range bodies {
+			ast.Inspect(body, func(m ast.Node) bool {
+				if ix, ok := m.(*ast.IndexExpr); ok {
+					if tv := info.Types[ix.Index]; tv.Value != nil && tv.Value.Kind() == constant.String {
+						keys[constant.StringVal(tv.Value)] = true
+					}
+				}
+				return true
+			})
+			// the pin flag looked up into a variable and type-switched later in the same body
+			// (`val, ok := meta["_pinned"]; if !ok { return false }; switch v := val.(type) {`)
+			pinVars := map[types.Object]bool{}
+			ast.Inspect(body, func(m ast.Node) bool {
+				as, ok := m.(*ast.AssignStmt)
+				if !ok || len(as.Rhs) != 1 || len(as.Lhs) == 0 {
+					return true
+				}
+				if ix, ok := as.Rhs[0].(*ast.IndexExpr); ok {
+					if tv := info.Types[ix.Index]; tv.Value != nil && tv.Value.Kind() == constant.String && constant.StringVal(tv.Value) == "_pinned" {
+						if id, ok := as.Lhs[0].(*ast.Ident); ok {
+							pinVars[info.ObjectOf(id)] = true
+						}
+					}
+				}
+				return true
+			})
+			ast.Inspect(body, func(m ast.Node) bool {
+				ts, ok := m.(*ast.TypeSwitchStmt)
+				if !ok {
+					return true
+				}
+				var subj ast.Expr
+				switch a := ts.Assign.(type) {
+				case *ast.AssignStmt:
+					if len(a.Rhs) == 1 {
+						if ta, ok := a.Rhs[0].(*ast.TypeAssertExpr); ok {
+							subj = ta.X
+						}
+					}
+				case *ast.ExprStmt:
+					if ta, ok := a.X.(*ast.TypeAssertExpr); ok {
+						subj = ta.X
+					}
+				}
+				if id, ok := subj.(*ast.Ident); ok && pinVars[info.ObjectOf(id)] {
+					for _, st := range ts.Body.List {
+						for _, e := range st.(*ast.CaseClause).List {
+							pinForms[types.TypeString(info.TypeOf(e), nil)] = true
+						}
+					}
+				}
+				return true
+			})
+		}
 		// forms of the pin flag: a type switch / assertions on the value looked up under "_pinned"
 		ast.Inspect(fi.Decl.Body, func(m ast.Node) bool {
 			ifs, ok := m.(*ast.IfStmt)
@@ -503,13 +574,24 @@ func ruleSIB3(w *World, r *Report) {
 				st := site{name: shortName(fi.Obj), pos: cs[0].Pos(), always: map[string]bool{}}
 				for _, k := range want {
 					kk := k
-					isLk := func(in ssa.Instruction) bool {
+					rawLk := func(in ssa.Instruction) bool {
 						lk, ok := in.(*ssa.Lookup)
 						if !ok {
 							return false
 						}
 						sv, ok := constString(lk.Index)
 						return ok && sv == kk
+					}
+					isLk := func(in ssa.Instruction) bool { // … or a helper of the package that always looks the key up
+						if rawLk(in) {
+							return true
+						}
+						c, ok := in.(*ssa.Call)
+						if !ok {
+							return false
+						}
+						g := c.Call.StaticCallee()
+						return g != nil && g.Pkg == f.Pkg && g.Object() != dm && alwaysPerforms(g, rawLk)
 					}
 					found, _ := pathQuery{fn: f, target: callsTo(dm), avoid: isLk}.find(entryPos(f))
 					st.always[k] = !found && len(findInstrs(f, isLk)) > 0
